@@ -294,6 +294,35 @@ func checkC16(c *lib.Ctx) {
 			return
 		}
 		defer p.Close()
+		// entry names of all lengths: a batch of 128 long names encodes to much more than a data packet
+		for _, nl := range []struct{ n, namelen int }{{150, 200}, {300, 120}, {129, 250}} {
+			d := filepath.Join(root, fmt.Sprintf("long%d_%d", nl.n, nl.namelen))
+			os.Mkdir(d, 0o755)
+			want := map[string]bool{}
+			for i := 0; i < nl.n; i++ {
+				name := fmt.Sprintf("e%04d_", i) + strings.Repeat("x", nl.namelen-6)
+				os.WriteFile(filepath.Join(d, name), nil, 0o600)
+				want[name] = true
+			}
+			fis, err := p.Client.ReadDir(d)
+			r.Case(fmt.Sprintf("os long names %d x %d", nl.n, nl.namelen), true)
+			r.Hist("os-backed-long-names")
+			got := map[string]int{}
+			for _, fi := range fis {
+				got[fi.Name()]++
+			}
+			bad := err != nil || len(got) != len(want) || len(fis) != nl.n
+			for name := range want {
+				if got[name] != 1 {
+					bad = true
+				}
+			}
+			if bad {
+				r.Fail(lib.Failure{Kind: "oracle", Key: "os/listing-not-exact/long-names", What: "ReadDir of a real directory with long entry names lost or duplicated entries",
+					Input: map[string]int{"entries": nl.n, "name_length": nl.namelen}, Expected: nl.n, Actual: map[string]any{"returned": len(fis), "distinct": len(got), "err": fmt.Sprint(err)}})
+			}
+			os.RemoveAll(d)
+		}
 		var olines, oimpl []string
 		for _, n := range sizes {
 			d := filepath.Join(root, fmt.Sprintf("d%d", n))
